@@ -225,15 +225,16 @@ theorem globPart_mem {rd : Reader} {mk : Matcher} {cfg : Cfg} {base : Str} {want
   by_cases hsp : isSpecialPart p = true
   · simp only [hsp, if_true] at h
     cases h
-    simp only [List.mem_map, Step, hsp]
+    simp only [List.mem_map]
+    unfold Step
     constructor
     · rintro ⟨d, hd, rfl⟩
-      exact ⟨d, hd, Or.inl ⟨trivial, rfl⟩⟩
+      exact ⟨d, hd, Or.inl ⟨hsp, rfl⟩⟩
     · rintro ⟨d, hd, h⟩
       rcases h with ⟨_, rfl⟩ | ⟨h, _⟩ | ⟨h, _⟩
       · exact ⟨d, hd, rfl⟩
-      · cases h
-      · cases h
+      · rw [hsp] at h; cases h
+      · rw [hsp] at h; cases h
   · have hsp' : isSpecialPart p = false := by simpa using hsp
     simp only [hsp', Bool.false_eq_true, if_false] at h
     by_cases hm : hasMeta p = true
@@ -254,18 +255,19 @@ theorem globPart_mem {rd : Reader} {mk : Matcher} {cfg : Cfg} {base : Str} {want
           simp only [hme] at h
           cases h
           rw [mapExcept_ok _ ms out hme x]
-          simp only [Step, hsp', hm]
+          unfold Step
           constructor
           · rintro ⟨d, hd, la, hla, hx⟩
             obtain ⟨ents, e, h1, h2, h3, h4, h5⟩ := (globDir_mem hla x).mp hx
-            exact ⟨d, hd, Or.inr (Or.inr ⟨rfl, rfl, f, ents, e, rfl, h1, h2, h3, h4, h5⟩)⟩
+            exact ⟨d, hd, Or.inr (Or.inr ⟨hsp', hm, f, ents, e, hmk, h1, h2, h3, h4, h5⟩)⟩
           · rintro ⟨d, hd, h⟩
             rcases h with ⟨h, _⟩ | ⟨_, h, _⟩ | ⟨_, _, f', ents, e, hf', h1, h2, h3, h4, h5⟩
-            · cases h
-            · cases h
-            · cases hf'
+            · rw [hsp'] at h; cases h
+            · rw [hm] at h; cases h
+            · rw [hmk] at hf'
+              cases hf'
               -- globDir succeeded on every d ∈ ms
-              have : ∃ la, globDir rd base d f' wantDir = .ok la := by
+              have : ∃ la, globDir rd base d f wantDir = .ok la := by
                 unfold globDir
                 simp [h1]
               obtain ⟨la, hla⟩ := this
@@ -273,15 +275,16 @@ theorem globPart_mem {rd : Reader} {mk : Matcher} {cfg : Cfg} {base : Str} {want
     · have hm' : hasMeta p = false := by simpa using hm
       simp only [hm', Bool.not_false, if_true] at h
       cases h
-      simp only [List.mem_map, List.mem_filter, Step, hsp', hm']
+      simp only [List.mem_map, List.mem_filter]
+      unfold Step
       constructor
       · rintro ⟨d, ⟨hd, hk⟩, rfl⟩
-        exact ⟨d, hd, Or.inr (Or.inl ⟨rfl, rfl, hk, rfl⟩)⟩
+        exact ⟨d, hd, Or.inr (Or.inl ⟨hsp', hm', hk, rfl⟩)⟩
       · rintro ⟨d, hd, h⟩
         rcases h with ⟨h, _⟩ | ⟨_, _, hk, rfl⟩ | ⟨_, h, _⟩
-        · cases h
+        · rw [hsp'] at h; cases h
         · exact ⟨d, ⟨hd, hk⟩, rfl⟩
-        · cases h
+        · rw [hm'] at h; cases h
 
 theorem globLoop_sel {rd : Reader} {mk : Matcher} {cfg : Cfg} {base : Str} :
     ∀ (parts : List Str) (ms out : List Str), (∀ p ∈ parts, isGlobStar cfg p = false) →
